@@ -8,8 +8,8 @@
 #include "dump.h"
 #include <sys/wait.h>
 
-enum { CK_BOTH, CK_GROUPLESS, CK_SECTIONS, CK_MULTILINE, CK_EMPTYVAL, CK_EMPTYSEC, CK_PERCENT, CK_MALFORMED, CK_MALF_TEXTAFTER, CK_MALF_EMPTYSEC, CK_MALF_NODELIM, CK_N };
-static const char *CKN[CK_N] = { "both", "group-less only", "sections only", "multi-line values", "empty value", "empty section", "values, keys and a section with % in them", "malformed line [x", "malformed line [x] y", "malformed line []", "malformed line key text" };
+enum { CK_BOTH, CK_GROUPLESS, CK_SECTIONS, CK_MULTILINE, CK_EMPTYVAL, CK_EMPTYSEC, CK_PERCENT, CK_LONG, CK_MALFORMED, CK_MALF_TEXTAFTER, CK_MALF_EMPTYSEC, CK_MALF_NODELIM, CK_N };
+static const char *CKN[CK_N] = { "both", "group-less only", "sections only", "multi-line values", "empty value", "empty section", "values, keys and a section with % in them", "a value of 9000 characters and a continuation line of 8300", "malformed line [x", "malformed line [x] y", "malformed line []", "malformed line key text" };
 #define NFILES 6   /* 0 usr main, 1 etc main, 2 usr a.conf, 3 usr b.conf, 4 etc a.conf, 5 etc b.conf */
 static const char *FRELN[2][NFILES] = {
   { "/usr/etc/cfg.conf", "/etc/cfg.conf", "/usr/etc/cfg.conf.d/a.conf", "/usr/etc/cfg.conf.d/b.conf", "/etc/cfg.conf.d/a.conf", "/etc/cfg.conf.d/b.conf" },
@@ -50,6 +50,11 @@ static void content(int id, int kind, sbuf *b)
   case CK_EMPTYVAL: sb_printf(b, "e%d%c\nafter%d%c1\n[S]\nk%cf%d\n", id, d, id, d, d, id); break;
   case CK_EMPTYSEC: sb_printf(b, "g%d%c1\n[E%d]\n[S]\nk%cf%d\n", id, d, id, d, id); break;
   case CK_PERCENT: sb_printf(b, "q%d%c80%%\nm%d%c100%%%% sure\n%%k%d%c%%d.%%m.%%Y\n[S%%s]\nk%cf%d %%s %%x\n", id, d, id, d, id, d, d, id); break;
+  case CK_LONG:
+    sb_printf(b, "long%d%c", id, d); for (int i = 0; i < 9000; i++) sb_putc(b, (char)('a' + (i + id) % 26));
+    if (dsel == 2) sb_printf(b, "\n[S]\nk%cf%d\n", d, id);
+    else { sb_printf(b, "\nm%d%cone\n  ", id, d); for (int i = 0; i < 8300; i++) sb_putc(b, (char)('A' + (i + id) % 26)); sb_printf(b, "\n[S]\nk%cf%d\n", d, id); }
+    break;
   case CK_MALFORMED: sb_printf(b, "ok%d%c1\n[broken%d\nlater%c1\n", id, d, id, d); break;
   case CK_MALF_TEXTAFTER: sb_printf(b, "ok%d%c1\n\n[sec%d] trailing\nlater%c1\n", id, d, id, d); break;
   case CK_MALF_EMPTYSEC: sb_printf(b, "[]\nlater%c1\n", d); break;
@@ -115,7 +120,7 @@ static void parse_listing(const char *out, sbuf *b)
   for (int i = 0; i < 4 && p; i++) { p = strchr(p, '\n'); if (p) p++; }
   while (p && *p) {
     const char *e = strchr(p, '\n'); size_t len = e ? (size_t)(e - p) : strlen(p);
-    char line[512]; if (len > 511) len = 511; memcpy(line, p, len); line[len] = 0;
+    char *line = malloc(len + 1); if (!line) mc_die("oom"); memcpy(line, p, len); line[len] = 0;
     if (!len) { /* end of a group */ }
     else if (!strncmp(line, "     ", 5)) sb_printf(b, "V %s\n", line + 5);
     else {
@@ -125,6 +130,7 @@ static void parse_listing(const char *out, sbuf *b)
       else if (ll >= 2 && !strcmp(line + ll - 2, " =")) { line[ll - 2] = 0; sb_printf(b, "K %s\n", line); }
       else sb_printf(b, "G %s\n", line);
     }
+    free(line);
     p = e ? e + 1 : NULL;
   }
 }
